@@ -325,6 +325,66 @@ where
     return "\n".join(out)
 
 
+AP_SHIMS = r'''
+// ---- R3 shims for add_property (the real one is extracted below as ap_add_property) ----------
+fn ap_code(k: &str) -> u8 {
+    if k == "New" {
+        1
+    } else if k == "Old" {
+        2
+    } else {
+        0
+    }
+}
+/// stands for InstanceBuilder: an ordered list of (name, value) pushes; `has_property` scans it
+pub(crate) struct ApBuilder {
+    pub n: usize,
+    pub keys: [u8; 3],
+    pub vals: [Option<Variant>; 3],
+}
+impl ApBuilder {
+    pub fn new() -> Self {
+        ApBuilder { n: 0, keys: [0; 3], vals: [None, None, None] }
+    }
+    pub fn has_property<K: AsRef<str>>(&self, key: K) -> bool {
+        let c = ap_code(key.as_ref());
+        (self.n > 0 && self.keys[0] == c) || (self.n > 1 && self.keys[1] == c) || (self.n > 2 && self.keys[2] == c)
+    }
+    pub fn add_property<K: AsRef<str>, V: Into<Variant>>(&mut self, key: K, value: V) {
+        self.keys[self.n] = ap_code(key.as_ref());
+        core::mem::forget(core::mem::replace(&mut self.vals[self.n], Some(value.into())));
+        self.n += 1;
+    }
+}
+pub(crate) struct ApInstance {
+    pub builder: ApBuilder,
+}
+/// stands for CanonicalProperty
+pub(crate) struct ApCanonical<'db> {
+    pub name: &'static str,
+    pub migration: Option<&'db PropertySerialization<'db>>,
+}
+'''
+
+
+def extract_add_property(src):
+    m = re.search(r"fn\s+add_property\s*\(\s*instance:\s*&mut\s+Instance,\s*canonical_property:\s*&CanonicalProperty,\s*value:\s*Variant\s*\)\s*\{", src)
+    if not m:
+        raise LostAnchor("R3: add_property signature not found in deserializer/state.rs")
+    k = m.end() - 1
+    e = match_brace(src, k)
+    return src[k + 1:e]
+
+
+def gen_add_property(body):
+    return AP_SHIMS + '''
+// R3: body of deserializer::state::add_property, verbatim
+pub(crate) fn ap_add_property(instance: &mut ApInstance, canonical_property: &ApCanonical, value: Variant) {
+%s
+}
+''' % body
+
+
 def gen_decode(arms, prefix):
     out = [DEC_SHIMS]
     for (t, v) in sorted(arms):
@@ -363,8 +423,13 @@ def generate(scratch_repo, log):
                % (len(dec), " ".join("%s/%s" % k for k in sorted(dec))))
     text = {
         ("rbx_binary", "src/serializer/state.rs"): gen_encode(enc),
-        ("rbx_binary", "src/deserializer/state.rs"): gen_decode(dec, None),
+        ("rbx_binary", "src/deserializer/state.rs"): gen_decode(dec, None) + gen_add_property(extract_add_property(dsrc)),
     }
+    log.append("R3 deserializer/state.rs: body of add_property extracted verbatim (ap_add_property)")
+    p = os.path.join(scratch_repo, "rbx_reflection", "src", "lib.rs")
+    with open(p, "a") as fh:
+        fh.write("\n#[cfg(kani)]\npub use migration::__verif::mk_migration;\n")
+    log.append("R3 rbx_reflection/src/lib.rs: appended `pub use migration::__verif::mk_migration` (cfg(kani))")
     # re-exports so that the harness module at the crate root can reach both sides
     for mod_rs, alias in (("serializer/mod.rs", "__verif_enc"), ("deserializer/mod.rs", "__verif_dec")):
         p = os.path.join(scratch_repo, "rbx_binary", "src", mod_rs)
@@ -581,4 +646,51 @@ def generate(scratch_repo, log):  # noqa: F811
     log.append("R3b attributes/reader.rs: entry head + %d arms extracted verbatim: %s" % (len(rarms), " ".join(sorted(rarms))))
     text[("rbx_types", "src/attributes/writer.rs")] = gen_attr_writer(whead, warms)
     text[("rbx_types", "src/attributes/reader.rs")] = gen_attr_reader(rhead, rarms)
+    return obs, text
+
+
+# ======================================================================================
+# R6: constants generated from rbx_reflection_database/database.msgpack on every run
+# ======================================================================================
+
+def gen_font_items(scratch_repo, log):
+    import msgpack_min
+    db = msgpack_min.load(os.path.join(scratch_repo, "rbx_reflection_database", "database.msgpack"))
+    try:
+        enums = db[2]
+        items = enums["Font"][1]
+    except Exception as e:  # layout of the database changed
+        raise LostAnchor("R6: Enum.Font not found in database.msgpack (%s)" % e)
+    pairs = sorted((v, k) for k, v in items.items())
+    log.append("R6 database.msgpack: Enum.Font has %d items, values %s" % (len(pairs), " ".join(str(v) for v, _ in pairs)))
+    lines = ["// R6: Enum.Font items of rbx_reflection_database/database.msgpack at this run"]
+    # one harness per item: Kani's assert! assumes its condition afterwards, so items sharing a
+    # harness would hide each other once one of them fails
+    for v, k in pairs:
+        lines.append("//@ obligation: U9.perform.font.i%d" % v)
+        lines.append("//@ props: C15")
+        lines.append("//@ fns: PropertyMigration::perform[FontToFontFace]")
+        lines.append("//@ kind: complete")
+        lines.append("//@ covers: 1")
+        lines.append("//@ checks: functional")
+        lines.append("//@ timeout: 900")
+        lines.append("//@ note: Enum.Font item %d (%s) of the bundled database (all %d items are enumerated, one obligation each) migrates to a Font with a non-empty family" % (v, k, len(pairs)))
+        lines.append("#[kani::proof]")
+        lines.append("#[kani::unwind(3)]")
+        lines.append("fn u9_perform_font_i%d() {" % v)
+        lines.append("    let ok = font_ok(%d);" % v)
+        lines.append('    kani::cover!(true, "end of harness reached");')
+        lines.append('    assert!(ok, "Enum.Font item %d (%s) is migratable");' % (v, k))
+        lines.append("}")
+        lines.append("")
+    return "\n".join(lines) + "\n"
+
+
+_generate_attr = generate
+
+
+def generate(scratch_repo, log):  # noqa: F811
+    import instrument
+    obs, text = _generate_attr(scratch_repo, log)
+    instrument.GENERATED["font_items"] = gen_font_items(scratch_repo, log)
     return obs, text
